@@ -832,6 +832,26 @@ func allShapes() []shape {
 				yc := e.m(2, M{})
 				return M{"rb": yb, "rc": yc}
 			}},
+		// a node that runs on NO data input (control-only dependency), whose output type differs from its input type
+		// and which carries an output key / an input key: in the stream paradigms the framework hands it an empty
+		// stream of its input type, in Invoke the zero value
+		{name: "wf-dep-outkey", feat: "workflow-static", npos: 2, inputs: inM,
+			build: func(f *factory) (runner, error) {
+				wf := compose.NewWorkflow[M, M]()
+				wf.AddLambdaNode("a", f.M(0)).AddInput(S)
+				wf.AddLambdaNode("b", f.RM(1), compose.WithOutputKey("kb")).AddDependency("a")
+				wf.End().AddInput("a", compose.ToField("ra")).AddInput("b", compose.MapFields("kb", "rb"))
+				r, err := wf.Compile(context.Background())
+				if err != nil {
+					return nil, err
+				}
+				return runnerT[M, M]{r}, nil
+			},
+			model: func(e *eval, x any) any {
+				ya := e.m(0, x.(M))
+				yb := e.rm(1, rec{})
+				return M{"ra": ya, "rb": yb}
+			}},
 		{name: "wf-dep-static", feat: "workflow-static", npos: 2, inputs: inM,
 			build: func(f *factory) (runner, error) {
 				wf := compose.NewWorkflow[M, M]()
